@@ -15,9 +15,12 @@ RULE = ("sequential half, odometer enumeration on the real library (no randomnes
 
 HARNESSES = [
     dict(name="logseq", src=["logseq.c"], variant="asan", deadline={"quick": 120, "thorough": 900}),
+    # concurrent half: background / foreground channel and the full pipeline under the controlled scheduler
+    dict(name="logmt", src=["logmt.c"], variant="sched", wrap=True, deadline={"quick": 150, "thorough": 1500}),
 ]
 
 ASSUMPTIONS = [
+    "concurrent half (logmt): 1-2 sender threads x 1-3 lines against the real background/foreground channel and the pipeline logger, recording writer with a schedule point inside write; preemption bound 2-3 (quick) / 3-4 (thorough); sequentially consistent interleavings at lock/condvar/atomic/create/join points (DESIGN 4.4)",
     "sequential half only: one thread, foreground channel; the background channel under a controlled scheduler is a separate harness of this property",
     "bounds: direct formatter calls total_length <= 300 and message <= 120 bytes; no-alloc logger messages <= 8400 bytes (buffer 8192); programs of 4 calls with one level change",
     "the timestamp is parsed, not predicted: it must match the selected format exactly, be a valid UTC calendar time (weekday consistent) and lie within +-1 s of the wall-clock bracket of the call",
